@@ -560,6 +560,11 @@ def _sg(ck: Checker, prog: Program):
     skip = _canon0(R0.value(edge[0].test, edge[0])).xreplace(sizes)
     rels = list(skip.args) if isinstance(skip, sp.Or) else [skip]
     lower = upper = None
+    def _flip(r):
+        sw = {sp.Lt: sp.Gt, sp.Gt: sp.Lt, sp.Le: sp.Ge, sp.Ge: sp.Le}
+        return sw[type(r)](r.rhs, r.lhs, evaluate=False) if type(r) in sw else r
+    # either spelling of a comparison: idx on the left for the lower bound, the number of samples on the right for the upper bound
+    rels = [(_flip(r) if isinstance(r, (sp.Gt, sp.Ge)) and equal(r.rhs, idx) else _flip(r) if isinstance(r, (sp.Lt, sp.Le)) and equal(r.lhs, nfr) else r) for r in rels]
     for r in rels:
         # idx < L  -> kept implies idx >= L ;  idx + E > nfreqs -> kept implies idx + E <= nfreqs
         if isinstance(r, sp.Lt) and equal(r.lhs, idx):
